@@ -19,7 +19,7 @@ SPACE = [
     ("contraction", ["segmented", "SP", "gen-ss", "gen-pd", "3-primitives"]),
     ("shell_order", ["grouped", "reversed", "interleaved", "rotated", "perm2", "perm3", "skip-first-center"]),
     ("conventions", ["own", "fchk", "molden", "wfn", "mwfn", "horton2", "cca", "orca", "scr1", "scr2"]),
-    ("mo", ["restricted", "rohf", "rohf-triplet", "fractional", "aminusb", "unrestricted", "unrestricted-na>nb", "occupied-only", "irreps", "unrestricted-occupied-only"]),
+    ("mo", ["restricted", "rohf", "rohf-triplet", "beta-hole", "fractional", "aminusb", "unrestricted", "unrestricted-na>nb", "occupied-only", "irreps", "unrestricted-occupied-only"]),
     ("extras", ["none", "rdm-scf", "rdm-scf+spin", "rdm-post", "energy-none", "title-none", "atcharges"]),
 ]
 
@@ -169,6 +169,9 @@ def build(case, target, seed=0):
             occs = np.array([2.0] * nocc + [0.0] * (norb - nocc))
         elif mokind == "rohf":
             occs = np.array(([2.0] * (nocc - 1) + [1.0] + [0.0] * norb)[:norb])
+        elif mokind == "beta-hole":
+            # alpha occupations (1,1,0,..) are aufbau, beta occupations (0,1,0,..) are not
+            occs = np.array(([1.0, 2.0] + [0.0] * norb)[:norb])
         elif mokind == "rohf-triplet":
             occs = np.array(([2.0] * max(nocc - 2, 0) + [1.0, 1.0] + [0.0] * norb)[:norb])
         elif mokind == "fractional":
